@@ -48,10 +48,17 @@ func isMasterFault(k string) bool {
 	return false
 }
 
+// badClasses is the number of classes badBytes knows.
+const badClasses = 10
+
 // badBytes returns a packet body (without the 0x00 marker) that fails the
 // validity gate, derived from a real event.
 func badBytes(real []byte, sub int) []byte {
-	switch sub % 8 {
+	switch sub % badClasses {
+	case 8: // a complete event behind two bytes of another layer's framing (the semi-sync header: 0xef, flag)
+		return append([]byte{0xef, byte(sub / badClasses & 1)}, real...)
+	case 9: // a complete event behind a stray byte (a second OK marker)
+		return append([]byte{0x00}, real...)
 	case 6: // over-long by exactly a checksum's worth
 		return append(append([]byte{}, real...), 1, 2, 3, 4)
 	case 7: // over-long by one byte
